@@ -1,0 +1,5 @@
+//go:build !verif && vfs
+
+package litestream
+
+func verifVFSPhase(*VFSFile, string) {}
